@@ -1210,7 +1210,9 @@ def deriv_smooth_vel(m: Model, d: Data, out: wp.array2d[float]):
       ],
       outputs=[out],
     )
-  if m.has_fluid:
+  # passive() skips fluid forces when both springs and dampers are disabled
+  passive_disabled = (m.opt.disableflags & DisableBit.SPRING) and (m.opt.disableflags & DisableBit.DAMPER)
+  if m.has_fluid and not passive_disabled:
     if m.body_fluid_ellipsoid_adr.size > 0:
       wp.launch(
         _qderiv_ellipsoid_fluid,
